@@ -191,6 +191,54 @@ fn child(mode: &str, spec: &Spec) -> ChildOut {
             }
             ChildOut { threads: outs }
         }
+        // a very long-lived thread (more than 2^24 node creations) with short-lived threads started - and finished - at milestones of
+        // its life ("long-interleaved"), versus the same threads one after another ("long-sequential"). Thread 0 reports one digest
+        // per 4096 draws, the short threads their priorities.
+        "long-interleaved" | "long-sequential" => {
+            let total = spec.threads[0].0 as usize;
+            let milestones: Vec<usize> = spec.threads[1..].iter().map(|t| t.0 as usize).collect();
+            let interleaved = mode == "long-interleaved";
+            let short = |k: usize| -> ThreadOut {
+                std::thread::spawn(move || {
+                    let mut o = ThreadOut::default();
+                    o.prios = (0..40).map(|i| TreapNode::new(Lt::new(k as u32 * 100 + i)).priority).collect();
+                    o
+                })
+                .join()
+                .unwrap()
+            };
+            let ms = milestones.clone();
+            let (tx, rx) = std::sync::mpsc::channel::<Vec<ThreadOut>>();
+            let long = std::thread::spawn(move || {
+                let mut o = ThreadOut::default();
+                let mut shorts = Vec::new();
+                let mut h: u64 = 0xcbf29ce484222325;
+                let mut next_ms = 0usize;
+                for i in 0..total {
+                    if interleaved && next_ms < ms.len() && i == ms[next_ms] {
+                        shorts.push(short(next_ms));
+                        next_ms += 1;
+                    }
+                    let p = TreapNode::new(Lt::new(0)).priority;
+                    h = (h ^ p as u64).wrapping_mul(0x100000001b3);
+                    if i % 4096 == 4095 || i + 1 == total {
+                        o.prios.push((h ^ (h >> 32)) as u32);
+                    }
+                }
+                let _ = tx.send(shorts);
+                o
+            });
+            let a = long.join().unwrap();
+            let mut shorts = rx.recv().unwrap_or_default();
+            if !interleaved {
+                for k in 0..milestones.len() {
+                    shorts.push(short(k));
+                }
+            }
+            let mut all = vec![a];
+            all.extend(shorts);
+            ChildOut { threads: all }
+        }
         "churn" => {
             let (count, short_n) = spec.churn.unwrap_or((4200, 2));
             let stop = Arc::new(AtomicBool::new(false));
@@ -483,7 +531,7 @@ fn main() {
          its own Vec model, and renderings of its treap (TreePrinter, Debug) taken under concurrency equal consecutive and quiescent renderings, (2) heap order and height bound in every thread's treap, (3) history invariant on the per-thread priority \
          streams: either the union of all draws is exactly a prefix of the sequential stream and each thread's draws are a subsequence \
          of it (one synchronised generator), or every thread sees the stream a lone thread sees (identical per-thread generators), or every thread sees the stream of a distinct thread of a token-passing sequential execution (per-thread generators seeded by order of first use); which of the \
-         three applies is learnt from token-passing sequential runs of the library itself. Non-trivial = at least two threads' creation \
+         three applies is learnt from token-passing sequential runs of the library itself. With per-thread generators, one more workload: a thread creating 2^24 + 20000 nodes with short-lived threads started and finished at creations 1000, 65600, 1048700 and 16777300 of it must see, and give the short threads, exactly the streams of the execution in which the short threads run afterwards (digest per 4096 draws). Non-trivial = at least two threads' creation \
          windows overlapped in time (timestamps used for this classification only). Distinct = distinct workload specs.",
     );
     ctx.assume("the OS scheduler is not controlled: interference is provoked (yield gate, real treap work, jitter), not enumerated; a race that never perturbs a draw is only visible to the ThreadSanitizer tier");
@@ -567,5 +615,37 @@ fn main() {
         .prop_map(|(n, seed, ye, count, short_n)| Spec { threads: vec![(n, seed, ye, 0)], churn: Some((count, short_n)) });
     ctx.prop_cfg("thread-churn", "c17-workload", ctx.n(3, 30), 4, churn, &runner);
     ctx.prop_cfg("long-workloads", "c17-workload", ctx.n(4, 40), 6, spec_strategy(8, 100_000, 200_000), &runner);
+    // one very long-lived thread (beyond 2^16, 2^20 and 2^24 node creations) with short-lived threads started and finished at
+    // milestones of its life, against the same threads one after another: with per-thread generators every stream must be the same in
+    // both executions (a generator that re-seeds itself from shared state after N draws, say, gives the long thread a continuation
+    // that depends on who started meanwhile)
+    if matches!(shape_kind, StreamShape::ByRank | StreamShape::PerThread) {
+        let long_runner = |spec: &Spec| -> CaseResult {
+            let a = run_child("long-interleaved", spec).map_err(child_error)?;
+            let b = run_child("long-sequential", spec).map_err(child_error)?;
+            let mut st = CaseStats::default();
+            st.size = spec.threads[0].0 as u64;
+            vensure!(a.threads.len() == b.threads.len(), "child-crash", "long-lived workload: {} and {} thread reports", a.threads.len(), b.threads.len());
+            for (i, (x, y)) in a.threads.iter().zip(b.threads.iter()).enumerate() {
+                if x.prios != y.prios {
+                    let at = x.prios.iter().zip(y.prios.iter()).position(|(p, q)| p != q).unwrap_or(x.prios.len().min(y.prios.len()));
+                    let what = if i == 0 { format!("the long-lived thread's stream differs from draw {} on (4096-draw digests)", at * 4096) } else { format!("short-lived thread {} (started at creation {} of the long-lived thread) differs at draw {}", i, spec.threads[i].0, at) };
+                    return Err(Violation::new(
+                        "stream/no-sequential-execution",
+                        format!("long-lived workload {:?}: {} between the execution in which the short-lived threads run at their milestones and the one in which they run afterwards; threads that share no treap influenced each other's priority streams", spec.threads.iter().map(|t| t.0).collect::<Vec<_>>(), what),
+                    ));
+                }
+            }
+            st.nontrivial = true;
+            st.label("long-lived-thread-beyond-2^24-creations");
+            Ok(st)
+        };
+        ctx.replayer("c17-long", move |v| long_runner(&serde_json::from_value::<Spec>(v.clone()).expect("spec")));
+        let total = (1u32 << 24) + 20_000;
+        let specs = vec![Spec { threads: vec![(total, 0, 0, 0), (1_000, 0, 0, 0), (65_600, 0, 0, 0), (1_048_700, 0, 0, 0), (16_777_300, 0, 0, 0)], churn: None }];
+        ctx.exhaustive("long-lived-thread", "c17-long", "one thread creating 2^24 + 20000 nodes, short-lived threads at creations 1000, 65600, 1048700 and 16777300 of it", false, specs, long_runner);
+    } else {
+        ctx.class("long-lived-thread-check-skipped-shared-stream-design", 1);
+    }
     ctx.finish();
 }
